@@ -494,6 +494,7 @@ def main():
     ap.add_argument("--list", action="store_true")
     ap.add_argument("--keep", action="store_true")
     ap.add_argument("--jobs", type=int)
+    ap.add_argument("--compile", action="store_true", help="only compile the harnesses of the selected units (kani --only-codegen) and show rustc errors")
     a = ap.parse_args()
     global KEEP
     KEEP = a.keep
@@ -507,6 +508,16 @@ def main():
         finally:
             cleanup()
     try:
+        if a.unit and a.compile:
+            sel = [units_mod.by_id()[x] for x in a.unit]
+            d, _ = prepare(sel, "c")
+            feat = sel[0].get("features")
+            p = subprocess.run(["cargo", "kani", "-Z", "stubbing", "-Z", "function-contracts", "--only-codegen"] +
+                               (["--no-default-features", "--features", feat] if feat else []), cwd=d, env=ENV,
+                               stdout=subprocess.PIPE, stderr=subprocess.STDOUT, text=True)
+            errs = re.findall(r"^error.*?(?=^\S|\Z)", p.stdout, re.S | re.M)
+            print("\n".join(e[:1500] for e in errs[:12]) if errs else "compiles OK")
+            return 0 if not errs else 2
         if a.unit:
             sel = [units_mod.by_id()[x] for x in a.unit]
             prop = a.property or sel[0]["props"][0]
